@@ -12,6 +12,7 @@ kinds
   strange  baseline + feed, 100% expected vote, turnout factor outside the limits (assumed)
   missing  baseline only (no row in the feed)
   free     baseline + feed, expected vote and counts unconstrained (forks on threshold / limits)
+  partial  baseline + feed, but only the turnout count has arrived (other estimands are null in the feed)
 """
 import numpy as np
 import pandas as pd
@@ -116,6 +117,11 @@ def build(ctx, case):
             u.kind = "strange"
         sc.add(u)
         v = u.vals
+        if kind == "partial":
+            # in baseline and feed, but the feed has no value yet for every estimand except turnout
+            for k_ in list(v):
+                if k_.startswith("results_") and k_ != "results_turnout":
+                    v[k_] = float("nan")
         if kind == "strange":
             # pev = 100, turnout factor outside the limits
             wr, wb = weights_of(sc, v)
